@@ -4,7 +4,7 @@
    Wal/CrcTab.v, Wal/Pb.v; it is tied to the Go code by the differential run of ./check C16. *)
 Require Import Base.Bytes Wal.Crc32c Wal.CrcTab Wal.Pb Wal.WalModel Wal.WalSpec Wal.SnapModel.
 Require Import Wal.FrameProofs Wal.CrcProofs Wal.PbProofs Wal.WalProofs Wal.WalRefuted Wal.SnapProofs.
-Require Import Wal.TornProofs Wal.RepairProofs Wal.ReadAllProofs Wal.RoundtripProofs Wal.SnapFlipProofs Wal.FlipReadProofs Wal.DurableProofs.
+Require Import Wal.TornProofs Wal.RepairProofs Wal.ReadAllProofs Wal.RoundtripProofs Wal.SnapFlipProofs Wal.FlipReadProofs Wal.DurableProofs Wal.FlipClassProofs Wal.FlipCrcProofs Wal.FlipAllProofs.
 Local Open Scope N_scope.
 
 (* ------------------------------------------------------------------ frames *)
@@ -203,6 +203,141 @@ Theorem C16_byte_flip_readback : forall rs_before t pre a b suf rs_after last cr
 Proof. exact byte_flip_readback. Qed.
 Print Assumptions C16_byte_flip_readback.
 
+(* ------------------------------------------------------------------ one changed byte anywhere in a frame *)
+
+(* confinement: the bytes of one frame are replaced by ANY bytes X of the same length; the
+   records in front of it are returned unchanged and the rest of the outcome is what the decode
+   loop does on X followed by the untouched remainder *)
+Theorem C16_flip_confined : forall rs_before r rs_after last crc0 kz X,
+  let rs := rs_before ++ r :: rs_after in
+  Forall raw_ok rs -> Forall crc_rec_wf rs -> crc0 < lim32 ->
+  let '(rsB', bsB, cB) := encode_recs crc0 rs_before in
+  let '(rsA', bsA, _) := encode_recs (digest_write cB (data_of r)) rs_after in
+  blen X = frame_len (stamp cB r) ->
+  let file' := bsB ++ X ++ bsA ++ zerosN kz in
+  let f := (S (length file') - length rs_before)%nat in
+  (length rs_after < f)%nat /\
+    decode_whole last crc0 file' =
+    let '(rs2, st, off, c) := decode_file f last (blen file') (blen bsB) cB (X ++ bsA ++ zerosN kz) in
+    (rsB' ++ rs2, st, off, c).
+Proof. exact flip_confined. Qed.
+Print Assumptions C16_flip_confined.
+
+(* C16_any_single_byte_flip.  A segment holds rs_before, r, rs_after (then kz zero bytes); the
+   byte at offset i of r's frame is changed to v.  (1) Always: the loop stops at that frame and
+   returns exactly the records in front of it — an unmodified prefix, with EOF or an error — or
+   decodeRecord ACCEPTED the damaged bytes as a record.  (2) By class of the offset
+   (part_in_record, the classification ./check C16 prints for every corruption case):
+   padding: the read is identical; length field: EOF (shorter prefix) when it now reads zero,
+   identical when it decodes to the same sizes (the four unused bits of its top byte,
+   C16_length_field_unused_bits); stored-crc varint with the continuation bit of the changed
+   byte kept: identical (only bits >= 2^32 changed) or ErrCRCMismatch/UnexpectedEOF.
+   Data bytes: C16_byte_flip_readback (always an error).  For the remaining classes acceptance
+   cannot be excluded: type byte (C16_type_byte_refuted) and data-length byte
+   (C16_data_length_byte_refuted) do return modified data as valid; tags, continuation bits and
+   other length-field values are covered by the dichotomy + the differential run only. *)
+Theorem C16_any_single_byte_flip : forall rs_before r rs_after last crc0 kz,
+  Forall raw_ok (rs_before ++ r :: rs_after) -> Forall crc_rec_wf (rs_before ++ r :: rs_after) ->
+  crc0 < lim32 ->
+  let rsB' := fst (fst (encode_recs crc0 rs_before)) in
+  let bsB := snd (fst (encode_recs crc0 rs_before)) in
+  let cB := snd (encode_recs crc0 rs_before) in
+  let rS := stamp cB r in
+  let rest := snd (fst (encode_recs (digest_write cB (data_of r)) rs_after)) ++ zerosN kz in
+  let sf := seg_file rs_before r rs_after crc0 kz in            (* X |-> bsB ++ X ++ rest *)
+  let n := blen (rec_marshal rS) in
+  let hdr := le_enc 8 (fst (encode_frame_size n)) in
+  forall i v, i < frame_len rS ->
+  let X := set_byte i v (frame_of rS) in
+  let part := part_in_record rS i in
+  ((exists s, decode_whole last crc0 (sf X) = (rsB', s, blen bsB, cB))
+   \/ (exists r2 n2 c2, decode_one last (blen (sf X)) (blen bsB) cB (X ++ rest) = DRec r2 n2 c2))
+  /\ (part = PPad -> decode_whole last crc0 (sf X) = decode_whole last crc0 (sf (frame_of rS)))
+  /\ (part = PLen ->
+        (le_dec (set_byte i v hdr) = 0 -> decode_whole last crc0 (sf X) = (rsB', FEnd, blen bsB, cB))
+        /\ (decode_frame_size (le_dec (set_byte i v hdr)) = (n, pad_of n) ->
+            decode_whole last crc0 (sf X) = decode_whole last crc0 (sf (frame_of rS))))
+  /\ (part = PCrc -> r_type r <> crcType ->
+        (forall b, nth_error (varint_enc (r_crc rS)) (N.to_nat (i - crc_off (r_type r))) = Some b ->
+                   (bval v <? 128) = (bval b <? 128)) ->
+        decode_whole last crc0 (sf X) = decode_whole last crc0 (sf (frame_of rS))
+        \/ decode_whole last crc0 (sf X) = (rsB', FUnexp, blen bsB, cB)
+        \/ decode_whole last crc0 (sf X) = (rsB', FErr DRecCrc, blen bsB, cB)).
+Proof. exact any_single_byte_flip. Qed.
+Print Assumptions C16_any_single_byte_flip.
+
+(* the classes one by one (corollaries of the above, kept under the names of the brief) *)
+Theorem C16_byte_flip_in_padding : forall rs_before r rs_after last crc0 kz,
+  Forall raw_ok (rs_before ++ r :: rs_after) -> Forall crc_rec_wf (rs_before ++ r :: rs_after) ->
+  crc0 < lim32 ->
+  let rS := stamp (snd (encode_recs crc0 rs_before)) r in
+  let sf := seg_file rs_before r rs_after crc0 kz in
+  forall i v, 8 + blen (rec_marshal rS) <= i -> i < frame_len rS ->
+  decode_whole last crc0 (sf (set_byte i v (frame_of rS))) = decode_whole last crc0 (sf (frame_of rS)).
+Proof. exact seg_flip_pad. Qed.
+Print Assumptions C16_byte_flip_in_padding.
+
+Theorem C16_byte_flip_in_length_field : forall rs_before r rs_after last crc0 kz,
+  Forall raw_ok (rs_before ++ r :: rs_after) -> Forall crc_rec_wf (rs_before ++ r :: rs_after) ->
+  crc0 < lim32 ->
+  let rS := stamp (snd (encode_recs crc0 rs_before)) r in
+  let sf := seg_file rs_before r rs_after crc0 kz in
+  let n := blen (rec_marshal rS) in
+  let hdr := le_enc 8 (fst (encode_frame_size n)) in
+  forall i v, i < 8 ->
+  let hdr' := set_byte i v hdr in
+  (le_dec hdr' = 0 ->
+     decode_whole last crc0 (sf (set_byte i v (frame_of rS)))
+     = (fst (fst (encode_recs crc0 rs_before)), FEnd, blen (snd (fst (encode_recs crc0 rs_before))),
+        snd (encode_recs crc0 rs_before)))
+  /\ (decode_frame_size (le_dec hdr') = (n, pad_of n) ->
+     decode_whole last crc0 (sf (set_byte i v (frame_of rS))) = decode_whole last crc0 (sf (frame_of rS))).
+Proof. exact seg_flip_len. Qed.
+Print Assumptions C16_byte_flip_in_length_field.
+
+(* decodeFrameSize ignores bits 3..6 of the top byte of the length field *)
+Theorem C16_length_field_unused_bits : forall b0 b1 b2 b3 b4 b5 b6 b7 v,
+  bval v / 128 = bval b7 / 128 -> bval v mod 8 = bval b7 mod 8 ->
+  decode_frame_size (le_dec [b0; b1; b2; b3; b4; b5; b6; v])
+  = decode_frame_size (le_dec [b0; b1; b2; b3; b4; b5; b6; b7]).
+Proof. exact len_unused_bits. Qed.
+Print Assumptions C16_length_field_unused_bits.
+
+Theorem C16_byte_flip_in_crc_field : forall rs_before r rs_after last crc0 kz,
+  Forall raw_ok (rs_before ++ r :: rs_after) -> Forall crc_rec_wf (rs_before ++ r :: rs_after) ->
+  crc0 < lim32 ->
+  let rsB' := fst (fst (encode_recs crc0 rs_before)) in
+  let bsB := snd (fst (encode_recs crc0 rs_before)) in
+  let cB := snd (encode_recs crc0 rs_before) in
+  let rS := stamp cB r in
+  let sf := seg_file rs_before r rs_after crc0 kz in
+  forall j v, r_type r <> crcType ->
+  j < blen (varint_enc (r_crc rS)) ->
+  (forall b, nth_error (varint_enc (r_crc rS)) (N.to_nat j) = Some b -> (bval v <? 128) = (bval b <? 128)) ->
+  let X := set_byte (crc_off (r_type r) + j) v (frame_of rS) in
+  decode_whole last crc0 (sf X) = decode_whole last crc0 (sf (frame_of rS))
+  \/ decode_whole last crc0 (sf X) = (rsB', FUnexp, blen bsB, cB)
+  \/ decode_whole last crc0 (sf X) = (rsB', FErr DRecCrc, blen bsB, cB).
+Proof. exact seg_flip_crc. Qed.
+Print Assumptions C16_byte_flip_in_crc_field.
+
+(* a segment that is not the last one ends early with a clean EOF — e.g. a length field inside
+   it was zeroed — which nothing inside that file notices.  The crcType record at the head of the
+   next segment holds the digest the writer had at the cut (cE); the decode loop compares it
+   with its own digest c1 and ReadAll fails with ErrCRCMismatch — PROVIDED c1 <> 0 (the loop
+   skips the comparison for a fresh decoder) and c1 <> cE, i.e. the skipped records moved the
+   digest.  This is the only thing that catches it: the side conditions are exactly when. *)
+Theorem C16_zero_length_mid_segment_detected_by_chain : forall f1 rs1 off1 c1 cE rest2 more crc0,
+  decode_whole false crc0 f1 = (rs1, FEnd, off1, c1) ->
+  cE < two32 -> c1 <> 0 -> c1 <> cE ->
+  let head := mkrec crcType cE None in
+  let f2 := frame_of head ++ rest2 in
+  decode_files (f1 :: f2 :: more) crc0 = (rs1, FErr DChainCrc, frame_len head, c1)
+  /\ forall write si st, crc0 = 0 -> (exists s, interp_all si st rs_init rs1 = SOk s) ->
+       read_all write si st (f1 :: f2 :: more) = RAErr CChainCrc.
+Proof. exact chain_detects_short_segment. Qed.
+Print Assumptions C16_zero_length_mid_segment_detected_by_chain.
+
 (* ------------------------------------------------------------------ crash images *)
 
 (* The tail segment holds the records rs_synced (written, then synced) followed by rs_unsynced
@@ -308,6 +443,24 @@ Theorem C16_type_byte_refuted :
     /\ prefix_ok 0 0 written 0 (RAOk meta hs ents true) = false.
 Proof. exact type_byte_refuted_ex. Qed.
 Print Assumptions C16_type_byte_refuted.
+
+(* the data-LENGTH byte is outside the CRC as well, and Unmarshal skips unknown fields: with
+   metadata "ab" ++ s, where the 5 bytes s parse as an unknown fixed32 field and leave the
+   CRC-32C digest unchanged (crc("ab"++s) = crc("ab")), changing the length byte 7 -> 2 makes
+   Open+ReadAll return err = nil and the metadata "ab" — the record's CRC and the whole rolling
+   chain still match.  KNOWN_FINDINGS.txt: open record-data-length-byte. *)
+Theorem C16_data_length_byte_refuted :
+  exists (files : list bytes) (written : list wrec) (off : N) (v : byte) meta meta' hs ents,
+    files = map file_bytes (w_files 4096 (w_run (Some meta) []))
+    /\ written = concat (decode_each files 0)
+    /\ locate written 0 off = (1, PDataLen)
+    /\ crc_update 0 meta = crc_update 0 meta'
+    /\ read_all true 0 0 files = RAOk (Some meta) hs ents true
+    /\ read_all true 0 0 (map (set_byte off v) files) = RAOk (Some meta') hs ents true
+    /\ meta' <> meta
+    /\ prefix_ok 0 0 written 0 (RAOk (Some meta') hs ents true) = false.
+Proof. exact data_length_byte_refuted_ex. Qed.
+Print Assumptions C16_data_length_byte_refuted.
 
 (* ------------------------------------------------------------------ snapshot files *)
 
